@@ -118,7 +118,18 @@ def parse_case(case):
         if kind == 'style':
             obj2 = cssutils.parseStyle(text)
         else:
-            obj2 = cssutils.parseString(text)
+            over = None
+            if isinstance(text, bytes):
+                # the serialisation of a sheet whose @charset names an encoding that is not ASCII compatible
+                # (cp037, utf-16-le...) does not describe itself: outside "decodable under the encoding that
+                # applies" unless the reader is told the encoding, as a transport would
+                import codecs
+                try:
+                    codecs.getdecoder('css')(text)
+                except UnicodeDecodeError:
+                    over = obj.encoding
+                    out['reparse_override'] = over
+            obj2 = cssutils.parseString(text, encoding=over)
         out['stage'] = 'reserialise'
         obj2.cssText
         out['stage'] = 'done'
@@ -188,6 +199,14 @@ def gen_cases(ctx):
                      'c.css': 'c{right:0}'}
             cases.append({'kind': 'fetch', 'input': {'files': files, 'root': 'a.css', 'mode': 1, 'http': codec if where == 'http' else None},
                           'opts': opts(), 'family': 'fetch-codec'})
+    # a text sheet naming every codec Python registers (and the css codec itself) in its @charset rule:
+    # the rule is kept or refused, and either way the sheet serialises and the result parses again
+    import encodings.aliases
+    names = sorted(set(encodings.aliases.aliases.values()) | {'css', 'CSS', 'utf-8-sig', 'idna', 'punycode', 'unicode_escape', 'raw_unicode_escape', 'undefined', 'nope'})
+    for codec in names:
+        cases.append({'kind': 'sheet', 'input': '@charset "%s"; a{content:"\\e9  \xe9 \u20ac"}' % codec, 'opts': opts(), 'family': 'charset-names'})
+        cases.append({'kind': 'fetch', 'input': {'files': {'a.css': '@import "b.css"; a{left:0}', 'b.css': 'b{top:0}'}, 'root': 'a.css', 'mode': 1, 'http': codec},
+                      'opts': opts(), 'family': 'fetch-codec'})
     return cases
 
 
